@@ -17,6 +17,9 @@ use std::time::{Duration, Instant};
 
 pub type Judge = fn(&[u8]) -> Value;
 
+/// extra arguments of a worker child (`rpmverif worker <judge> <args...>`), e.g. a base package file
+pub static WORKER_ARGS: std::sync::OnceLock<Vec<String>> = std::sync::OnceLock::new();
+
 fn judges() -> Vec<(&'static str, Judge)> {
     crate::checks::worker_judges()
 }
@@ -26,6 +29,7 @@ fn judges() -> Vec<(&'static str, Judge)> {
 
 pub fn child_main(args: &[String]) -> i32 {
     let name = args.first().map(|s| s.as_str()).unwrap_or("");
+    let _ = WORKER_ARGS.set(args.iter().skip(1).cloned().collect());
     let Some((_, judge)) = judges().into_iter().find(|(n, _)| *n == name) else {
         eprintln!("unknown worker judge {name}");
         return 64;
@@ -107,12 +111,12 @@ struct ShardState {
     results: Vec<(u64, Outcome)>,
 }
 
-fn run_shard(bin: &Path, judge: &str, shard: &[&Case], timeout: Duration) -> Vec<(u64, Outcome)> {
+fn run_shard(bin: &Path, judge: &str, extra: &[String], shard: &[&Case], timeout: Duration) -> Vec<(u64, Outcome)> {
     let mut st = ShardState { results: Vec::with_capacity(shard.len()) };
     let mut next = 0usize;
     let mut stalls = 0;
     while next < shard.len() {
-        let mut child = match Command::new(bin).arg("worker").arg(judge).stdin(Stdio::piped()).stdout(Stdio::null()).stderr(Stdio::piped()).spawn() {
+        let mut child = match Command::new(bin).arg("worker").arg(judge).args(extra).stdin(Stdio::piped()).stdout(Stdio::null()).stderr(Stdio::piped()).spawn() {
             Ok(c) => c,
             Err(e) => {
                 for c in &shard[next..] {
@@ -248,6 +252,10 @@ fn run_shard(bin: &Path, judge: &str, shard: &[&Case], timeout: Duration) -> Vec
 
 /// Run all cases through `workers` child processes of `bin`; outcomes are returned in case order.
 pub fn run_cases(bin: &Path, judge: &str, cases: &[Case], workers: usize, timeout: Duration) -> Vec<(u64, Outcome)> {
+    run_cases_args(bin, judge, &[], cases, workers, timeout)
+}
+
+pub fn run_cases_args(bin: &Path, judge: &str, extra: &[String], cases: &[Case], workers: usize, timeout: Duration) -> Vec<(u64, Outcome)> {
     let workers = workers.max(1).min(cases.len().max(1));
     let mut shards: Vec<Vec<&Case>> = (0..workers).map(|_| Vec::new()).collect();
     // contiguous blocks keep neighbouring (similar) cases in one worker
@@ -260,7 +268,7 @@ pub fn run_cases(bin: &Path, judge: &str, cases: &[Case], workers: usize, timeou
         for sh in &shards {
             let all = &all;
             s.spawn(move || {
-                let r = run_shard(bin, judge, sh, timeout);
+                let r = run_shard(bin, judge, extra, sh, timeout);
                 all.lock().unwrap().extend(r);
             });
         }
@@ -271,7 +279,7 @@ pub fn run_cases(bin: &Path, judge: &str, cases: &[Case], workers: usize, timeou
     for (id, out) in all.iter_mut() {
         if let Outcome::Timeout { .. } = out {
             if let Some(c) = by_id.get(id) {
-                let again = run_shard(bin, judge, &[*c], timeout * 10);
+                let again = run_shard(bin, judge, extra, &[*c], timeout * 10);
                 match again.into_iter().next() {
                     Some((_, Outcome::Timeout { .. })) => *out = Outcome::Timeout { confirmed: true },
                     Some((_, o)) => *out = o,
